@@ -113,7 +113,7 @@ def next_chunk_checks(chk, prog, ev, tpl, slf, name_term):
         s = ("vfld", sq, "Some", "0")
         s1 = binop("Add", s, C(1, "usize"), "usize")
         letter = ite(eq_c(s1, "usize", LAST_SEQ), C("E", "&str"), C("I", "&str"))
-        ident = adt(CI, "ChunkIdentifier", (("site", call("alloc::string::ToString::to_string", F("site"))), ("volume", F("volume")), ("name", name_term(s1, letter)), ("date_time", NONE)))
+        ident = adt(CI, "ChunkIdentifier", (("site", F("site")), ("volume", F("volume")), ("name", name_term(s1, letter)), ("date_time", NONE)))
         # split the found term into the two regimes
         inner = None
         if got[0] == "cases" and got[1] == ("discr", sq):
